@@ -15,8 +15,9 @@ from vlib import sim as simmod
 
 class Observer:
 
-    def __init__(self, sim, deals=True, receives=True, tasks=True, keep_shares=False):
+    def __init__(self, sim, deals=True, receives=True, tasks=True, keep_shares=False, sends=False):
         self.sim = sim
+        self.send_log = []  # (pid, peer, pc, payload, sim step)
         self.recv_log = {}
         self.deals = []
         self.tasks = {i: [] for i in range(sim.m)}
@@ -35,6 +36,17 @@ class Observer:
 
             aco.MessageExchanger.receive = receive
             self._restore.append((aco.MessageExchanger, 'receive', orig_receive))
+        if sends:
+            rtc = M['runtime'].Runtime
+            orig_send = rtc._send_message
+            slog = self.send_log
+
+            def _send_message(rt, peer_pid, data):
+                slog.append((rt.pid, peer_pid, rt._program_counter[0], bytes(data), sim.steps))
+                return orig_send(rt, peer_pid, data)
+
+            rtc._send_message = _send_message
+            self._restore.append((rtc, '_send_message', orig_send))
         if deals:
             for name in ('random_split', 'np_random_split'):
                 orig = getattr(th, name)
@@ -66,11 +78,12 @@ class Observer:
             except TypeError:
                 n = None
             d = dict(pid=sim.current, order=int(field.order), n=n, t=t, m=m, variant=name,
-                     draws=sim.n_randbelow - before)
+                     draws=sim.n_randbelow - before, send_idx=len(self.send_log), step=sim.steps,
+                     pc=sim.runtimes[sim.current]._program_counter[0])
             if calls_before is not None:
                 d['draw_args'] = sim.randbelow_args[calls_before:]
             if keep:
-                d['secrets'] = s
+                d['secrets'] = list(s) if isinstance(s, (list, tuple)) else s  # snapshot: callers reuse lists
                 d['shares'] = shares
             deals.append(d)
             return shares
